@@ -192,7 +192,9 @@ claimed = {
         "repository is treated as fallible on the input. The obligations are generated from the function bodies in /repo on every run and decided by "
         "govc's effect analysis (call order over the AST, no bound). Completeness of the output: both template constants end with {{.CodeLast}} and "
         "the TypeScript builder's last WriteString writes b.CodeLast. Every action of the two template constants reads a FIELD of TemplateBuilder - no method of that name exists, "
-        "no call or pipeline - so nothing input-dependent is evaluated while the file is open. A failed obligation is replayed by running the real generator on rejected "
+        "no call or pipeline - so nothing input-dependent is evaluated while the file is open. The command-line front end (genCommonFunc, cmdGenerate) is under an io_only "
+        "contract as well: it opens and reads the input file and calls the generator, and touches the output path in no other way; the TypeScript epilogue written last is the text "
+        "after the second %% byte for byte (Parse, RootVistor.Process, TsBuilder.buildUionAndCode). A failed obligation is replayed by running the real generator on rejected "
         "grammars over a pre-existing file.",
    note="Trusted: govc's effect analysis (syntactic: source order of calls, enclosing loop of os.Create, defers), go/types callee resolution. Assumed "
         "input-infallible: text/template New/Parse/Execute on the constant templates with string/bool fields, (*os.File).WriteString/Close, fmt.Errorf. "
